@@ -514,6 +514,13 @@ func (h *H) sizeHint(depth int) int {
 		return 1
 	case 2:
 		return 9 + h.Intn(4) // around the cap-10 growth step
+	case 4:
+		return 13 + h.Intn(6) // 14/15/16: the compact-protocol short list header ends, 4-bit counters wrap
+	case 5:
+		if depth <= 1 && h.Intn(2) == 0 {
+			return 126 + h.Intn(5) // 127/128: one-byte varint counts end
+		}
+		return 1 + h.Intn(4)
 	case 3:
 		if depth > 1 {
 			return 1 + h.Intn(4) // large collections only near the top: sizes multiply with nesting
